@@ -111,6 +111,7 @@ func scenarioData(w *world, flavor string) {
 	tail := false
 	switch flavor {
 	case "C02":
+		xo.cbWrites = true
 		o.smallBuffers = w.ctape.intn(2) == 0
 		o.maxLossPPM = 500000
 		xo.slowReaders = true
@@ -133,6 +134,7 @@ func scenarioData(w *world, flavor string) {
 		o.maxLossPPM = 600000
 		tail = true
 	case "C10":
+		xo.cbWrites = true
 		o.smallBuffers = w.ctape.intn(2) == 0
 		xo.slowReaders = true
 		xo.reliableOrderedOnly = w.ctape.intn(2) == 0
